@@ -141,7 +141,7 @@ def compact(l):
     for k in ("p", "node", "j"):
         if l.get(k):
             out[k] = l[k]
-    if l["n"] in ("Pipeline", "Allocate", "Scratch"):
+    if l["n"] in ("Pipeline", "Allocate"):
         out["g"] = l.get("g", [])
     if l["n"] == "Pipeline":
         out["upd"] = bool(l.get("upd"))
@@ -256,12 +256,8 @@ def diff_classes(prefix):
             continue
         parts = k.split(".")
         if parts[0] == "pods" and parts[-1] == "groups":
-            pre = ".".join(parts[:-1])
-
-            def scratch(m):
-                st, virt = json.loads(m.get(pre + ".st", '""')), json.loads(m.get(pre + ".virt", "0"))
-                return st == "Pending" or (st == "Releasing" and virt == 1)
-            if scratch(a) and scratch(b):
+            stk = ".".join(parts[:-1] + ["st"])
+            if json.loads(a[stk]) == "Pending" and json.loads(b.get(stk, '""')) == "Pending":
                 continue
         out.add(".".join([parts[0]] + [x for x in parts[2:] if not re.fullmatch(r"[pgnjqd]\d+", x)]))
     return sorted(out)
@@ -287,7 +283,7 @@ def describe(events, limit=40):
     for e in events[1:]:
         if e["ev"] == "Call":
             a = [str(e[k]) for k in ("p", "node", "j") if e.get(k)]
-            if e["op"] in ("Pipeline", "Allocate", "Scratch") and e["g"]:
+            if e["op"] in ("Pipeline", "Allocate") and e["g"]:
                 a.append("gpu=" + "/".join(e["g"]))
             if e["op"] == "Pipeline":
                 a.append("upd=%d" % e["upd"])
@@ -376,7 +372,7 @@ RULE = ("programs = (a) every transition of the exhaustive TLC state graph of sp
         "contains a Rollback, Discard or Commit; distinct by (scenario, operation sequence)")
 
 ASSUMPTIONS = [
-    "GPU groups of a pod the actions are still placing (Pending, or virtually evicted) are a caller scratch field (gpu_sharing assigns them before Allocate/Pipeline and resets them on failure, outside any statement operation): normalised to empty in the C13 comparison; what the pod holds is compared through the node's own entry",
+    "GPU groups of a Pending pod are a caller scratch field (gpu_sharing assigns them before Allocate/Pipeline and nothing restores them): normalised to empty in the C13 comparison",
     "zero-valued entries of the per-GPU-group maps are equal to absent entries (group ids are fresh UUIDs in production)",
     "sessions come from the real snapshot of a real SchedulerCache on fake clientsets; only Session.Cache is wrapped (recording, failure injection); resource claims / storage are not part of the scenarios",
     "Stmt.tla models the intended behaviour for findings F14, F15, F21, F22; other oddities of statement.go are transcribed as they are",
